@@ -284,6 +284,16 @@ pub fn judge(case: &Case, l: &mut Local) {
 
 pub fn run(cfg: &Config) -> i32 {
     let started = std::time::Instant::now();
+    let cases = build_cases(cfg);
+    run_cases(cfg, started, cases)
+}
+
+/// Every envelope text of this check (well-formed and malformed): also fed to C07, where a panic is the violation
+pub fn envelope_texts(cfg: &Config) -> Vec<String> {
+    build_cases(cfg).into_iter().map(|c| match c { Case::WellFormed { text, .. } | Case::Malformed { text, .. } => text }).collect()
+}
+
+fn build_cases(cfg: &Config) -> Vec<Case> {
     let c = Corpus::load(&cfg.verif_dir);
     // one valid block 4 per type (first corpus entry, rotated by seed)
     let mut bodies: Vec<(String, String)> = Vec::new();
@@ -452,6 +462,10 @@ pub fn run(cfg: &Config) -> i32 {
             cases.push(Case::Malformed { label: format!("output:{lab}"), block: "2".into(), text: assemble(&b1, &nb2, None, b4, None) });
         }
     }
+    cases
+}
+
+fn run_cases(cfg: &Config, started: std::time::Instant, cases: Vec<Case>) -> i32 {
     let n = cases.len() as u64;
     let total = par_for(cfg, n, |i, l| {
         let case = &cases[i as usize];
